@@ -68,6 +68,17 @@ CHECKS = {
         design="DESIGN.md 5 (C10)",
         technique="TLA+ spec + TLC exhaustive; spec->code replay of every evaluated state",
     ),
+    "C20": dict(
+        engine="tla-enums",
+        text="Enums.tla defines Parse(enum, member table, spelling) over byte sequences with the documented case folding (FrameID, label policy) and "
+        "fallback (Visibility aliases / UNAVAILABLE). MC_Enums model-checks the round-trip, case and rejection laws of Parse over all small tables; "
+        "every member of every real enum, its case variants, near misses and random strings are parsed by the real constructors and each call is "
+        "validated by TLC (member identity, not name string); every enum-or-string call site is observed under both spellings and TLC requires "
+        "equal observations. Exhaustive over members.",
+        note="member tables are introspected from the code at run time; the parser semantics (folding, fallback, reject) are the specification's",
+        design="DESIGN.md 5 (C20)",
+        technique="TLA+ spec + TLC (laws on abstract tables) + code->spec trace validation of every parser call",
+    ),
     "C02": dict(
         engine="tla-matching",
         text="Same specification and runs as C01; the no-blocking-pair predicates, stage order, exactness without ties (declarative Greedy2) and "
